@@ -177,7 +177,9 @@ def collOk (c : SColl) (chromRel : Bool) : Bool :=
   (match c.par, chromRel with
    | .chunk cs ce, false =>
      c.children.all fun x => match x with
-       | .gene g => g.txs.all fun t => within t.exons [(cs, ce)]
+       -- chunk-relative export documents the loss of programmed frameshifts: claimed for in-frame CDSs only
+       | .gene g => g.txs.all fun t => within t.exons [(cs, ce)] &&
+           (match t.cds with | some k => inFrame k.blocks t.strand k.frames | none => true)
        | .fc f => f.feats.all fun t => within t.blocks [(cs, ce)]
    | _, _ => true)
 
